@@ -194,6 +194,10 @@ class _Env:
         else:
             raise ValueError(act)
 
+    def sub_kwargs(self, i):
+        """extra keyword arguments of observer i's subscribe() call (C22: a scheduler of the subscriber's own)"""
+        return {}
+
     def sub(self, i):
         if self.seen[i]:
             return
@@ -201,6 +205,7 @@ class _Env:
         kw = {}
         if self.case["observers"][i]["err"]:
             kw["on_error"] = lambda e, i=i: self.callback(i, ["E", err_name(e)])
+        kw.update(self.sub_kwargs(i))
         self.handles[i] = self.subject.subscribe(
             lambda v, i=i: self.callback(i, ["N", enc(v)]), on_completed=lambda i=i: self.callback(i, ["C"]), **kw)
 
